@@ -834,7 +834,8 @@ func compileAssignStmt(context *funcContext, stmt *ast.AssignStmt) { // {{{
 } // }}}
 
 func compileRegAssignment(context *funcContext, names []string, exprs []ast.Expr, reg int, nvars int, line int) { // {{{
-	lennames := len(names)
+	// nvars registers are assigned (the three hidden slots of a generic for, not its names)
+	lennames := nvars
 	lenexprs := len(exprs)
 	namesassigned := 0
 	ec := &expcontext{}
